@@ -32,7 +32,7 @@ type CaseC09 struct {
 	Tail   int        `json:"tail"`    // decoded path: 0xFF bytes after the section in the decoder's input
 }
 
-const c09Kinds = 47
+const c09Kinds = 48
 
 func genC09(t *rapid.T) CaseC09 {
 	c := CaseC09{}
@@ -229,6 +229,9 @@ type c09State struct {
 	arena, arenaKeep []byte
 	// getterFail: set by a history step whose getters did not reflect the setters just called
 	getterFail string
+	// repeated: the descriptor list holds one handle twice (history step 47); from then on the history leaves the
+	// descriptors alone (an edit through the handle would have to show in both places of the model)
+	repeated bool
 }
 
 // window copies b to the end of the arena and returns that window of it
@@ -293,7 +296,34 @@ func c09Apply(st *c09State, mu MutC09) string {
 			}
 		}
 	}
+	if st.repeated {
+		switch mu.Kind {
+		case 0, 1, 2, 3, 4, 5, 6, 7, 8, 9, 10, 11, 12, 13, 14, 15, 36, 37, 38, 46:
+		default:
+			return ""
+		}
+	}
 	switch mu.Kind {
+	case 47:
+		// the same handle twice in one list: the loop then carries that descriptor twice ("descriptors in order",
+		// "every setter is reflected by the matching getter and by the next encoding")
+		if len(ds) == 0 || md == nil || len(ds) > 6 {
+			return ""
+		}
+		list := append([]scte35.SegmentationDescriptor{}, ds...)
+		list = append(list, d)
+		cp := *md
+		cp.Comps = append([]ref.SegOffset{}, md.Comps...)
+		cp.MID = append([]ref.SegUPID{}, md.MID...)
+		cp.UPID = append(ref.Hex{}, md.UPID...)
+		s.SetDescriptors(list)
+		st.handlesOK = false
+		st.repeated = true
+		m.Descs = append(m.Descs, cp)
+		if got := s.Descriptors(); len(got) != len(list) {
+			st.getterFail = fmt.Sprintf("SetDescriptors was given %d entries (entry %d a second time at the end), Descriptors() lists %d", len(list), mu.K%len(ds), len(got))
+		}
+		return fmt.Sprintf("SetDescriptors(the %d current ones + number %d again)", len(ds), mu.K%len(ds))
 	case 0:
 		s.SetTier(uint16(mu.V))
 		m.Tier = uint16(mu.V) & 0xFFF
@@ -799,7 +829,7 @@ func checkC09(c CaseC09, x *hx.Ctx) *hx.Failure {
 		if h := c09Apply(st, mu); h != "" {
 			hist = append(hist, h)
 			if st.getterFail != "" {
-				return hx.Failf("component-getter", "%s (history %v)", st.getterFail, hist)
+				return hx.Failf("setter-getter", "%s (history %v)", st.getterFail, hist)
 			}
 			if !mu.B && (mu.Kind == 3 || mu.Kind == 6 || mu.Kind == 14 || mu.Kind == 17 || mu.Kind == 19 || mu.Kind == 37 || mu.Kind == 29) {
 				cleared = true
@@ -870,7 +900,9 @@ func c09VerifyEncoding(st *c09State, c CaseC09, what string) *hx.Failure {
 	if again := st.sig.UpdateData(); !bytes.Equal(again, got) {
 		return hx.Failf("idempotence", "a second UpdateData() gives different bytes at %d (%s)\n first  %x\n second %x", firstDiff(again, got), what, got, again)
 	}
-	_ = st.sig.String()
+	if len(st.m.Descs) <= 64 { // printing is quadratic in the number of descriptors
+		_ = st.sig.String()
+	}
 	if !bytes.Equal(st.sig.Data(), got) {
 		return hx.Failf("idempotence", "String() changed the encoded bytes (%s)", what)
 	}
